@@ -41,6 +41,27 @@ CLAIMED.update({
     },
 })
 
+CLAIMED.update({
+    "C02": {
+        "text": "Coq theorem (closed under the global context): for EVERY expression tree over literals, variables, one unary prefix, the 13 binary operators, ABS, INT and redundant parentheses, and EVERY token spelling the grammar admits, the token-stream evaluator returns exactly the strict left-to-right IEEE-754 fold of the tree (value or error kind), leaves the cursor after the expression and changes nothing else (C02_expr); redundant parentheses never change a result (C02_parens); every tree has a legal spelling (C02_every_tree). Tied to the code by the expression correspondence and an independent fold in the harness, exhaustive over operator pairs.",
+        "design_ref": "DESIGN.md 6 C02",
+        "note": NOTE + "Nesting deeper than the cap (64) is an OUT OF MEMORY error by design (hypothesis n + pdepth e < max_nesting). ^ = powf oracle.",
+        "technique": "Coq proof: induction over the Renders derivation with a tier-indexed loop-generalised invariant, existential fuel; differential correspondence + independent fold oracle",
+    },
+    "C16": {
+        "text": "Coq theorems (closed under the global context): the invariant (<= 32 frames, <= 32 loops with distinct variables, every variable / parameter binding / array cell typed by its name's $ suffix, every array's cell count = product of dimensions <= 10000) holds in every state reachable from a fresh interpreter by ANY sequence of host calls, after every outcome incl. errors (C16_inv, C16_step); cap violations are exactly OUT OF MEMORY errors that change nothing; FOR never accumulates loops. Tied to the code by snapshot correspondence after every call and an invariant oracle on every snapshot.",
+        "design_ref": "DESIGN.md 6 C16",
+        "note": NOTE,
+        "technique": "Coq proof: inductive invariant over all evaluators (structural walker) and over host-call histories; snapshot correspondence + invariant oracle after every call",
+    },
+    "C17": {
+        "text": "Coq theorems (closed under the global context): a 2-run simulation -- for any session and any two flag configurations (set by field at any point, or by TRACE/NOTRACE), every call yields the same outcome, state, caret, error text, cursor-read count and the same output after dropping Trace/Warning records, and the states stay equal up to the flags (C17_transparent, C17_history); TRACE/NOTRACE change only the flag. The content of trace/warning records is tied by the correspondence (they are compared with the model's) and a trace-vs-path oracle.",
+        "design_ref": "DESIGN.md 6 C17",
+        "note": NOTE + "C17_trace_is_path and C17_warn_exact are validated (correspondence + oracle), not proved.",
+        "technique": "Coq proof: relational (2-safety) simulation over all evaluators and host-call histories; four-configuration differential oracle + correspondence",
+    },
+})
+
 _TODO = "check under construction in this session; not claimed until its theorems and correspondence are in place"
-NOT_CLAIMED = {p: _TODO for p in ["C01", "C02", "C03", "C05", "C06", "C07", "C08", "C09", "C12", "C14",
-                                  "C15", "C16", "C17", "C19", "C20"]}
+NOT_CLAIMED = {p: _TODO for p in ["C01", "C03", "C05", "C06", "C07", "C08", "C09", "C12", "C14",
+                                  "C15", "C19", "C20"]}
